@@ -14,3 +14,4 @@
 (define-fun vIsSet ((c S_config_CertificateContent)) Bool (S_config_CertificateValidity__IsSet (S_config_CertificateContent__Validity c)))
 (define-fun vFrom ((c S_config_CertificateContent)) O_time_Time (S_config_CertificateValidity__From (S_config_CertificateContent__Validity c)))
 (define-fun vUntil ((c S_config_CertificateContent)) O_time_Time (S_config_CertificateValidity__Until (S_config_CertificateContent__Validity c)))
+(declare-fun span (O_time_Time O_time_Time) Int)   ; the period between two instants: what a relative validity (duration, or until without from) configures
